@@ -65,6 +65,7 @@ oarr_of_fl = z3.Function("oarr_of_fl", FL, OARR)
 oarr_col = z3.Function("oarr_col", INT, INT, OARR)        # (bounds array ref, column) -> column vector
 oarr_rows = z3.Function("oarr_rows", OARR, INT)
 oarr_row = z3.Function("oarr_row", OARR, INT, G)
+barr_row = z3.Function("barr_row", INT, INT, G)           # (bounds array ref, j) -> the row [lower_j, upper_j]
 
 SORTS = {"int": INT, "bool": BOOL, "fl": FL, "str": STR, "g": G, "oint": OINT, "real": REAL, "og": OG, "oarr": OARR}
 
